@@ -12,8 +12,9 @@
              have, with deviations at 1/2 ... 2 times the tolerance itself      graders F, M, N
      "cans"  constant answers ('2', '2*pi/pi') in graders that have a variable: the student's formula uses the
              variable and agrees with the answer on part of the scripted samples only      graders F, M
-     "fun"   the sampled value is carried by a user function drawn anew at every sample (answer 'f(1)', student
-             formulas over f(1) that mention no variable at all, or f(1) + d with a scripted variable d)   graders F, M
+     "car"   the value CARRIER: the scripted value reaches the formulas through a user function drawn anew at every
+             sample (answer 'f(1)', no variable mentioned), through a numbered-variable instance (a_{1}), through a
+             dependent variable (y = 1*x) or through a constant-times-variable mix (one*x)                graders F, M
      "rw"    answer trees and their rewrites (commutation, distribution, +0, *1, ...) with and without an offset
    Level 1 = quick bounds, 2 = thorough bounds.
    Two-level enumeration: Init picks a seed (grader, tolerance, samples, failable_evals), Next picks the case. *)
@@ -170,13 +171,22 @@ FormsCans(s) == LET k == s.ans.k IN
 SeedsCans == {SeedRecA("cans", "F", "s", t, nf, a) : t \in TolsCans, nf \in NFCans, a \in AnsCans}
              \cup {SeedRecA("cans", "M", "s", AbsTol(Q(1, 10)), nf, ConstAns(R(2, 1), "lit")) : nf \in NFCans}
 
-(* ---- part "fun": per-sample-drawn functions carry the sampled value *)
-SeedsFun == {SeedRecA("fun", "F", "s", t, nf, IdfAns) : t \in {AbsTol(Zero), PctTol(I(50)), PctTol(Q(1, 100))},
+(* ---- part "car": what carries the sampled value *)
+NFCar == IF Level = 1 THEN {<<2, 0>>, <<2, 1>>, <<3, 1>>} ELSE NFsmall
+SeedsFun == {SeedRecA("car", "F", "s", t, nf, IdfAns) : t \in {AbsTol(Zero), PctTol(I(50))},
                                                         nf \in (IF Level = 1 THEN {<<1, 0>>, <<2, 0>>, <<2, 1>>, <<3, 1>>} ELSE NFsmall)}
-            \cup {SeedRecA("fun", "M", "s", AbsTol(Q(1, 2)), nf, IdfAns) : nf \in {<<2, 0>>}}
+            \cup {SeedRecA("car", "M", "s", AbsTol(Q(1, 2)), nf, IdfAns) : nf \in {<<2, 0>>}}
+            \cup {SeedRecA("car", "F", "s", t, nf, CarrierAns("idn")) : t \in {AbsTol(Zero), PctTol(I(50))}, nf \in NFCar}
+            \cup {SeedRecA("car", "F", "s", PctTol(I(50)), nf, CarrierAns(f)) : f \in {"idd", "idm"}, nf \in NFCar \ {<<2, 0>>}}
+
+(* ---- generous failable_evals: failable_evals = samples, samples + 1, samples + 2 (the count rule still decides) *)
+NFOver == IF Level = 1 THEN {<<2, 2>>, <<2, 4>>, <<3, 4>>, <<3, 5>>}
+          ELSE {<<n, n + k>> : n \in 2..4, k \in 0..2} \ {<<2, 2>>, <<2, 3>>, <<3, 3>>}
+SeedsOver == {SeedRec("real", "F", "s", AbsTol(Q(1, 2)), nf) : nf \in NFOver}
+             \cup {SeedRec("real", "F", "s", PctTol(I(50)), nf) : nf \in (IF Level = 1 THEN {<<2, 2>>, <<3, 4>>} ELSE NFOver)}
 
 Seeds == (IF "real" \in Parts THEN SeedsReal ELSE {}) \cup (IF "fine" \in Parts THEN SeedsFine ELSE {})
-         \cup (IF "fun" \in Parts THEN SeedsFun ELSE {})
+         \cup (IF "car" \in Parts THEN SeedsFun ELSE {}) \cup (IF "real" \in Parts THEN SeedsOver ELSE {})
          \cup (IF "cans" \in Parts THEN SeedsCans ELSE {}) \cup (IF "cx" \in Parts THEN SeedsCx ELSE {})
          \cup (IF "arr" \in Parts THEN SeedsArr ELSE {}) \cup (IF "inf" \in Parts THEN SeedsInf ELSE {})
          \cup (IF "rw" \in Parts THEN SeedsRw ELSE {})
@@ -192,14 +202,14 @@ XReal3 == {R(-2, 1), R(1, 2), R(4, 1)}
 XCx3 == {C(1, 1, 2, 1), C(-1, 2, 0, 1), C(0, 1, -3, 4)}
 XMat3 == {Mat(2, 2, <<I(3), Zero, Zero, I(4)>>), Mat(2, 2, <<Zero, I(1), Zero, Zero>>), Mat(2, 2, <<I(1), I(2), I(2), I(-1)>>)}
 XVec3s == {Vec(<<I(3), I(4)>>), Vec(<<I(-1), Q(1, 2)>>), Z2}
-ScriptsOf(s) == CASE s.part \in {"real", "fun"} -> Scripts(s.n, XReal, XReal3)
+ScriptsOf(s) == CASE s.part \in {"real", "car"} -> Scripts(s.n, XReal, XReal3)
                   [] s.part = "cx" -> Scripts(s.n, XCx, XCx3)
                   [] s.part = "arr" -> (IF s.sub = "mat" THEN Scripts(s.n, XMat, XMat3)
                                         ELSE IF s.sub = "vec" THEN Scripts(s.n, XVec, XVec3s) ELSE AllSeq(s.n, XVec3))
                   [] s.part = "inf" -> AllSeq(s.n, XInf)
                   [] s.part = "fine" -> (IF s.n <= 2 THEN AllSeq(s.n, XFine(s.sub)) ELSE Pat3(XFine(s.sub)))
                   [] s.part = "cans" -> Scripts(s.n, XCans, XCans3)
-FormsOf(s) == CASE s.part \in {"real", "fun"} -> FormsReal(s.n)
+FormsOf(s) == CASE s.part \in {"real", "car"} -> FormsReal(s.n)
                 [] s.part = "cx" -> FormsCx(s.n)
                 [] s.part = "arr" -> (IF s.sub = "mat" THEN FormsMat(s.n) ELSE IF s.sub = "vec" THEN FormsVec(s.n) ELSE FormsVec3(s.n))
                 [] s.part = "inf" -> FormsInf(s.n)
@@ -300,12 +310,14 @@ InvConstAnswerAllSamples == IsLawCase /\ c.ans.form = "const"
                               => out.fails = Cardinality({i \in 1..c.n : ~Within(c.ans.k, Ss[i], c.tol)})
 InvMulShortcut == IsLawCase /\ c.ans.form = "id" /\ c.fp.form = "mul" /\ c.tol.v[2] <= 100
                     => \A i \in 1..c.n : RealPart(c.fp.par[i])[2] <= 100 => LawMulShortcut(c.xs[i], RealPart(c.fp.par[i]), c.tol)
-InvCarrierIrrelevant == IsForm /\ c.ans.form = "idf" => LawCarrierIrrelevant(c.xs, c.fp.form, c.fp.par, c.tol, c.n, c.failable, c.credit)
+InvCarrierIrrelevant == IsForm /\ c.ans.form \in Carriers \ {"id"} => LawCarrierIrrelevant(c.xs, c.fp.form, c.fp.par, c.tol, c.n, c.failable, c.credit)
 InvFailableMonotone == IsCase => LawFailableMonotone(out.fails, c.n, c.failable)
 InvAllMiss == IsCase => LawAllMiss(c.n, c.failable) /\ LawNoMiss(c.n, c.failable) /\ LawSingleSample(out.fails, c.failable)
 InvAllMissRejected == IsCase /\ out.fails = c.n /\ c.failable < c.n => out.allowed = {"reject"}
-InvVerdictCounts == IsCase /\ ~Ambiguous(out.fails, c.n, c.failable)
-                      => ((out.allowed = {"accept"}) <=> (IF c.n = 1 THEN out.fails = 0 ELSE out.fails <= c.failable))
+InvVerdictCounts == IsCase => ((out.allowed = {"accept"}) <=> (IF c.n = 1 THEN out.fails = 0 ELSE out.fails <= c.failable))
+                                /\ LawCountRule(out.fails, c.n, c.failable)
+\* an author who sets failable_evals >= samples >= 2 forgives even a miss at every sample
+InvGenerousAccepted == IsCase /\ Generous(out.fails, c.n, c.failable) => out.allowed = {"accept"}
 InvSafeArith == IsLawCase /\ IsRealScalar(c.xs[1]) /\ ~IsInf(c.xs[1]) /\ IsRealScalar(Ss[1]) /\ ~IsInf(Ss[1])
                   => LawSafeArith(RealPart(c.xs[1]), RealPart(Ss[1])) /\ LawSafeArith(RAbs(RealPart(c.xs[1])), RAbs(RealPart(Ss[1])))
 \* rewrite part: every rule keeps the value at every sample, and on a grid large enough for the degree
